@@ -6,7 +6,8 @@
  *   (4) is refused exactly when the spec says the name is not a host name / does not fit.
  * Plain harness, fixed arrays: buffer of VF_CAP bytes with symbolic capacity msgbuf_size <= VF_CAP,
  * names <= VF_NAME bytes and RDATA <= VF_RDATA bytes of symbolic length and content.
- * -DVF_RT_QUESTION: header + question;  -DVF_RT_RR: header + record (ANCOUNT = 1). */
+ * -DVF_RT_QUESTION: header + question;  -DVF_RT_RR: header + record (ANCOUNT = 1);
+ * -DVF_RT_PART=1|2|3 selects which of (1)+(4), (2), (3) is asserted (one solver run each). */
 #define VF_DNS_MEMCPY_LOOP
 #include "contracts/dns.h"
 #include "stubs/dns.h"
@@ -68,11 +69,14 @@ void harness(void) {
 	vf_dns_spec_be16(&spec[12 + wlen], type);
 	vf_dns_spec_be16(&spec[12 + wlen + 2], class);
 	VF_ASSERT(size2 == 12 + wlen + 4 && size2 <= msgbuf_size, "question_add: new size = RFC size, inside the buffer");
+#if VF_RT_PART == 1
 	VF_ASSERT(k >= size2 || junk.b[k] == spec[k], "(1) message byte == RFC 1035 encoding");
+#elif VF_RT_PART == 2
 	/* (2) */
 	size_t qd = 0, an = 0, ns = 0, ar = 0, cnt = 9, real = 0;
 	VF_ASSERT(dns_msg_info_get(hdr, size2, &qd, &an, &ns, &ar, &cnt, &real) == 0 &&
 	    qd == 12 && an == size2 && ns == size2 && ar == size2 && cnt == 0 && real == size2, "(2) info_get: validates, offsets and size as built");
+#else
 	/* (3) */
 	uint16_t t2 = 0, c2 = 0;
 	size_t blen = sizeof(back), qs = 0;
@@ -80,6 +84,7 @@ void harness(void) {
 	VF_ASSERT(r == 0 && t2 == type && c2 == class && qs == wlen + 4, "(3) parse back: type, class, size");
 	VF_ASSERT(blen == name_len && back[blen] == 0, "(3) parse back: name length");
 	VF_ASSERT(k >= name_len || back[k] == text.b[k], "(3) parse back: name text");
+#endif
 #elif defined(VF_RT_RR)
 	VF_NONDET(uint32_t, ttl);
 	VF_NONDET(uint16_t, data_size);
@@ -101,10 +106,13 @@ void harness(void) {
 	for (n = 0; n < data_size; n ++)
 		spec[off + 10 + n] = rdata.b[n];
 	VF_ASSERT(size2 == off + 10 + data_size && size2 <= msgbuf_size, "rr_add: reported size = RFC size, inside the buffer");
+#if VF_RT_PART == 1
 	VF_ASSERT(k >= size2 || junk.b[k] == spec[k], "(1) message byte == RFC 1035 encoding");
+#elif VF_RT_PART == 2
 	size_t qd = 0, an = 0, ns = 0, ar = 0, cnt = 9, real = 0;
 	VF_ASSERT(dns_msg_info_get(hdr, size2, &qd, &an, &ns, &ar, &cnt, &real) == 0 &&
 	    qd == 12 && an == 12 && ns == size2 && ar == size2 && cnt == 1 && real == size2, "(2) info_get: validates, offsets, count and size as built");
+#else
 	uint16_t t2 = 0, c2 = 0, ds2 = 0;
 	uint32_t ttl2 = 0;
 	void *d2 = NULL;
@@ -116,6 +124,7 @@ void harness(void) {
 	VF_ASSERT(k >= name_len || back[k] == text.b[k], "(3) parse back: name text");
 	VF_ASSERT(d2 == junk.b + off + 10, "(3) parse back: RDATA pointer");
 	VF_ASSERT(k >= data_size || ((uint8_t *)d2)[k] == rdata.b[k], "(3) parse back: RDATA bytes");
+#endif
 #else
 #error "select VF_RT_QUESTION or VF_RT_RR"
 #endif
